@@ -395,7 +395,7 @@ def run(tier, seed, replay=None):
         else:
             n_neg += 1
     n_vc = 0 if replay else value_class_parameters(v, rng, base, 2 if tier == "quick" else 12)
-    n_anon = 0 if replay else anonymous_senders(v, rng, base, 4 if tier == "quick" else 40)
+    n_anon = 0 if replay else anonymous_senders(v, rng, base, 12 if tier == "quick" else 40)
     n_regen = 0 if replay else regenerated_handlers_are_current(v, [w[1] for w in work][:8 if tier == "quick" else 40])
     feats = sorted(set().union(*[d.features for d in docs])) if docs else []
     v.assumptions = ["reference interpreter in statement mode (qv/gen_expr.py) gives the prescribed effect trace",
